@@ -1399,4 +1399,129 @@ example : ∃ r, foldbyNoCIB (fun x : Int => (x % 3).toNat) (· + ·) 0 (· + ·
     (r.map (·.1)).Nodup ∧ ∀ κ, r.lookup κ = foldbySpec (fun x : Int => (x % 3).toNat) (· + ·) 0 [1, 2, 4, 3, 5, 7] κ :=
   foldby_noci_eq _ _ 0 _ add_hom 3 (by decide) [[1, 2, 4], [], [3, 5], [7]]
 
+/-! ## the disk shuffle as it runs: blocks, partd files, collect -/
+
+/-- regrouping a block by key does not disturb the elements of any one key -/
+theorem blockToFile_filter (hash : Nat → Nat) (g : α → Nat) (nout t : Nat) (block : List α) (κ : Nat) :
+    (blockToFile hash g nout t block).filter (fun x => g x == κ) =
+      if hash κ % nout == t then block.filter (fun x => g x == κ) else [] := by
+  simp only [blockToFile, groupByKeyOrdered, List.flatMap_map, List.filter_flatMap]
+  -- per key k of the block: its group filtered by κ is the κ-group when k = κ, nothing otherwise
+  have hper : ∀ k, (if hash k % nout == t then block.filter (fun x => g x == k) else []).filter (fun x => g x == κ) =
+      if k = κ then (if hash κ % nout == t then block.filter (fun x => g x == κ) else []) else [] := by
+    intro k
+    by_cases hk : k = κ
+    · subst hk
+      by_cases ht : (hash k % nout == t) = true
+      · simp [ht, List.filter_filter]
+      · simp [ht]
+    · simp only [hk, if_false]
+      by_cases ht : (hash k % nout == t) = true
+      · simp only [ht, if_true, List.filter_filter, List.filter_eq_nil_iff, Bool.and_eq_true, beq_iff_eq, not_and]
+        intro x _ hx1 hx2; exact hk (hx2.symm.trans hx1 ▸ rfl) |> False.elim
+      · simp [ht]
+  simp only [hper]
+  -- the keys are distinct: κ contributes at most once, and exactly when some element has key κ
+  by_cases hmem : κ ∈ (block.map g).eraseDups
+  · have hnd := nodup_eraseDups (block.map g)
+    generalize (block.map g).eraseDups = ks at hmem hnd
+    induction ks with
+    | nil => simp at hmem
+    | cons k ks ih =>
+      simp only [List.flatMap_cons]
+      rw [List.nodup_cons] at hnd
+      rcases List.mem_cons.mp hmem with rfl | hm
+      · have : ks.flatMap (fun k => if k = κ then (if hash κ % nout == t then block.filter (fun x => g x == κ) else []) else []) = [] := by
+          rw [List.flatMap_eq_nil_iff]
+          intro k hk
+          have : k ≠ κ := fun h => hnd.1 (h ▸ hk)
+          simp [this]
+        rw [this, List.append_nil]; simp
+      · have : k ≠ κ := fun h => hnd.1 (h ▸ hm)
+        simp only [this, if_false, List.nil_append]
+        exact ih hm hnd.2
+  · have hnone : block.filter (fun x => g x == κ) = [] := by
+      rw [List.filter_eq_nil_iff]
+      intro x hx hgx
+      apply hmem
+      rw [List.mem_eraseDups]
+      exact List.mem_map.mpr ⟨x, hx, by simpa using hgx⟩
+    have : (block.map g).eraseDups.flatMap (fun k => if k = κ then (if hash κ % nout == t then block.filter (fun x => g x == κ) else []) else []) = [] := by
+      rw [List.flatMap_eq_nil_iff]
+      intro k hk
+      have : k ≠ κ := fun h => hmem (h ▸ hk)
+      simp [this]
+    rw [this, hnone]; simp
+
+/-- the elements of key `κ` in file `t`: all of them, in the original order, when `t = hash κ % npartitions`;
+    none otherwise — whatever the block size -/
+theorem diskFile_filter (hash : Nat → Nat) (g : α → Nat) (nout nelements : Nat) (hne : 0 < nelements) (t : Nat)
+    (parts : List (List α)) (κ : Nat) :
+    (diskFile hash g nout nelements t parts).filter (fun x => g x == κ) =
+      if hash κ % nout == t then parts.flatten.filter (fun x => g x == κ) else [] := by
+  have hpart : ∀ p : List α, (partitionToFile hash g nout nelements t p).filter (fun x => g x == κ) =
+      if hash κ % nout == t then p.filter (fun x => g x == κ) else [] := by
+    intro p
+    simp only [partitionToFile, List.filter_flatMap, blockToFile_filter]
+    by_cases ht : (hash κ % nout == t) = true
+    · simp only [ht, if_true]
+      rw [← List.filter_flatMap, List.flatMap_id', partitionAll_flatten nelements hne]
+    · simp [ht]
+  simp only [diskFile, List.filter_flatMap, hpart]
+  by_cases ht : (hash κ % nout == t) = true
+  · simp only [ht, if_true]
+    rw [← List.filter_flatMap, List.flatMap_id']
+  · simp [ht]
+
+/-- **`groupby_disk_blocks_spec`**: the disk shuffle as the code runs it (blocks of `blocksize` elements grouped
+    and appended to the partd files, partitions in order): a key is reported in output partition
+    `hash κ % npartitions` only, with exactly the elements of that key in their original order; and every key
+    that occurs is reported. Independent of the block size. -/
+theorem groupby_disk_blocks_spec (hash : Nat → Nat) (g : α → Nat) (nout nelements : Nat) (hne : 0 < nelements)
+    (parts : List (List α)) :
+    (∀ t part κ grp, (groupbyDiskBlocks hash g nout nelements parts)[t]? = some part → (κ, grp) ∈ part →
+        t = hash κ % nout ∧ grp = parts.flatten.filter (fun x => g x == κ) ∧ grp ≠ []) ∧
+    (0 < nout → ∀ x ∈ parts.flatten, ∃ part, (groupbyDiskBlocks hash g nout nelements parts)[hash (g x) % nout]? = some part ∧
+        (g x, parts.flatten.filter fun y => g y == g x) ∈ part) := by
+  constructor
+  · intro t part κ grp hpart hmem
+    simp only [groupbyDiskBlocks, List.getElem?_map] at hpart
+    cases ht : (List.range nout)[t]? with
+    | none => simp [ht] at hpart
+    | some t' =>
+      have htt : t' = t := by
+        have hlt : t < (List.range nout).length := by
+          rcases Nat.lt_or_ge t (List.range nout).length with h | h
+          · exact h
+          · rw [List.getElem?_eq_none h] at ht; cases ht
+        rw [List.getElem?_eq_getElem hlt, List.getElem_range] at ht
+        exact (Option.some.inj ht).symm
+      subst htt
+      simp only [ht, Option.map_some, Option.some.injEq] at hpart
+      subst hpart
+      obtain ⟨⟨x, hx, hgx⟩, hgrp⟩ := (mem_groupByKeyOrdered g _ κ grp).mp hmem
+      have hf := diskFile_filter hash g nout nelements hne t' parts κ
+      have hxin : x ∈ (diskFile hash g nout nelements t' parts).filter (fun y => g y == κ) :=
+        List.mem_filter.mpr ⟨hx, by simp [hgx]⟩
+      by_cases hh : (hash κ % nout == t') = true
+      · simp only [hh, if_true] at hf
+        refine ⟨(beq_iff_eq.mp hh).symm, by rw [hgrp, hf], ?_⟩
+        rw [hgrp]; intro hnil; rw [hnil] at hxin; cases hxin
+      · simp only [hh, if_false] at hf
+        rw [hf] at hxin; cases hxin
+  · intro hn x hx
+    have hlt : hash (g x) % nout < nout := Nat.mod_lt _ hn
+    refine ⟨groupByKeyOrdered g (diskFile hash g nout nelements (hash (g x) % nout) parts), ?_, ?_⟩
+    · simp only [groupbyDiskBlocks, List.getElem?_map, List.getElem?_range hlt, Option.map_some]
+    · have hf := diskFile_filter hash g nout nelements hne (hash (g x) % nout) parts (g x)
+      simp only [beq_self_eq_true, if_true] at hf
+      rw [mem_groupByKeyOrdered]
+      refine ⟨?_, hf.symm⟩
+      have hxin : x ∈ parts.flatten.filter (fun y => g y == g x) := List.mem_filter.mpr ⟨hx, by simp⟩
+      rw [← hf] at hxin
+      exact ⟨x, (List.mem_filter.mp hxin).1, rfl⟩
+
+example : groupbyDiskBlocks (· + 5) (· % 3) 2 2 [[1, 2, 4, 5], [3, 7]] =
+    [[(1, [1, 4, 7])], [(2, [2, 5]), (0, [3])]] := by decide
+
 end Dask.C48
